@@ -493,6 +493,8 @@ func roSpaces(mode int, tier string) []mc.Space {
 		Rule: "for every supported Exif field alone in a record, in both byte orders: value shapes its parser does not expect (count 0; strings/dates of 0, 1 and 3 characters with and without NUL; a rational as two SHORTs / one LONG / no value; BYTE x4) x every accepting entry point"})
 	sp = append(sp, mc.Space{Name: "shared-value-bytes", H: roSeedsPlain(mode, amplificationSeeds()), NoLevels: true, Isolate: true,
 		Rule: "TIFF blocks whose 40-83 string fields name overlapping or identical value bytes (steps 0, 1, 64, 100; counts 1000-4096), alone and repeated as 24 and 64 Exif segments of one JPEG in alternating byte orders x every accepting entry point: the work and memory of a decode must follow the file's length, not the number of names for the same bytes"})
+	sp = append(sp, mc.Space{Name: "many-repetitions", H: roSeedsPlain(mode, repetitionSeeds()), NoLevels: true, Isolate: true,
+		Rule: "the smallest legal unit of each container structure repeated 3000-20000 times (Exif segments of 31-130 bytes, XMP segments, empty comments, CMT boxes, 60000 payload-less children of every type the meta box handles, empty PNG chunks) x every accepting entry point: a fixed cost per unit must stay small against the unit"})
 	sp = append(sp, mc.Space{Name: "box-headers-at-buffer-edges", H: roBoxEdges(mode), NoLevels: true, Isolate: true,
 		Rule: "the CR3 tree with a free box in front of moov sized so that the header of each later box, in 32- and in 64-bit form, starts at every distance -24..+4 from offsets 4096 and 8192 (the reader's buffer size): every CR3 entry point"})
 	sp = append(sp, mc.Space{Name: "jpeg-marker-structures", H: roSeedsPlain(mode, jpegStructureSeeds()), NoLevels: true, Isolate: true,
